@@ -39,7 +39,7 @@ def cases(tier, seed):
             out.append(dict(c, k='inspect', sim=s, K=3))
     for c in ds[:10 if tier == 'quick' else 150]:
         for s in SIMS:
-            out.append(dict(c, k='step_multiple', sim=s, K=2))
+            out.append(dict(c, k='step_multiple', sim=s, K=2, keys=('name', 'wire')[len(out) % 2]))
             out.append(dict(c, k='vcd', sim=s, K=2))
             out.append(dict(c, k='print_trace', sim=s, K=3))
     for s in ('sim', 'fast'):
@@ -282,8 +282,10 @@ def do_step_multiple(case, ob, site):
     v = Vars()
     ins = sorted(block.wirevector_subset(pyrtl.Input), key=lambda w: w.name)
     outs = sorted(block.wirevector_subset(pyrtl.Output), key=lambda w: w.name)[:2]
-    provided = {w.name: [SymInt.mk(v.inp(w.name, t, w.bitwidth), False) for t in range(K)] for w in ins}
-    expected = {w.name: [SymInt.mk(z3.BitVec('exp_%s_%d' % (w.name, t), w.bitwidth), False) for t in range(K)] for w in outs}
+    # both documented key kinds: wire names and the WireVectors themselves
+    key = (lambda w: w) if case.get('keys') == 'wire' else (lambda w: w.name)
+    provided = {key(w): [SymInt.mk(v.inp(w.name, t, w.bitwidth), False) for t in range(K)] for w in ins}
+    expected = {key(w): [SymInt.mk(z3.BitVec('exp_%s_%d' % (w.name, t), w.bitwidth), False) for t in range(K)] for w in outs}
     if not provided:
         return ob.fact('skipped-no-inputs', True)
     # reference: the same steps one at a time
@@ -336,7 +338,7 @@ def do_step_multiple(case, ob, site):
         ob.fact('report-lists-each-pair-once', len(listed) == len(rows), site + ':report-duplicates')
         for w in outs:
             for t in range(K):
-                ev = expected[w.name][t]
+                ev = expected[key(w)][t]
                 av = ref.trace[w.name][t]
                 differs = to_cond(ev != av) if (is_sym(ev) or is_sym(av)) else z3.BoolVal(ev != av)
                 if (t, w.name) in listed:
